@@ -117,7 +117,7 @@ pub struct Setup {
     pub hays: [String; 3],
 }
 
-fn setup<const A: usize, const HN: usize>() -> Setup {
+fn setup<const A: usize, const HN: usize>(ic_mask: u8) -> Setup {
     let t = tab();
     *t = Tab { res: [[None; MAXH]; MAXA], nidx: [0; MAXA], calls: [[0; MAXH]; MAXA], kind_seen: [[0; MAXH]; MAXA], ic_seen: [[false; MAXH]; MAXA], nz_seen: [[false; MAXH]; MAXA] };
     let mut atoms = Vec::with_capacity(A);
@@ -127,7 +127,8 @@ fn setup<const A: usize, const HN: usize>() -> Setup {
     let texts = ["a", "b", "c"];
     let mut a = 0;
     while a < A {
-        ic[a] = sym::bool_();
+        // the case flag is concrete per instance: Atom::new on a symbolic flag forks the heap string
+        ic[a] = (ic_mask >> a) & 1 == 1;
         let case = if ic[a] { CaseMatching::Ignore } else { CaseMatching::Respect };
         let mut atom = Atom::new(texts[a], case, Normalization::Never, AtomKind::Fuzzy, false);
         kind[a] = sym_kind();
@@ -207,8 +208,8 @@ fn marker(a: usize, k: usize) -> u32 {
 }
 
 /// Pattern::score / Pattern::indices on one haystack
-pub fn pattern_compose<const A: usize>() {
-    let s = setup::<A, 1>();
+pub fn pattern_compose<const A: usize>(ic_mask: u8) {
+    let s = setup::<A, 1>(ic_mask);
     let mut m = Matcher::new(Config::DEFAULT);
     let hay = Utf32Str::Ascii(s.hays[0].as_bytes());
     let r = s.pattern.score(hay, &mut m);
@@ -276,8 +277,8 @@ pub fn pattern_compose<const A: usize>() {
 }
 
 /// Pattern::match_list on three one-character inputs
-pub fn match_list<const A: usize>() {
-    let s = setup::<A, MAXH>();
+pub fn match_list<const A: usize>(ic_mask: u8) {
+    let s = setup::<A, MAXH>(ic_mask);
     let mut m = Matcher::new(Config::DEFAULT);
     let items = [s.hays[0].as_str(), s.hays[1].as_str(), s.hays[2].as_str()];
     let out = s.pattern.match_list(items, &mut m);
@@ -333,6 +334,7 @@ macro_rules! harnesses_compose {
             #[cfg(kani)]
             #[kani::proof]
             #[kani::unwind($unwind)]
+            #[kani::stub(std::vec::Vec::push, crate::verif::common::push_no_grow)]
             #[kani::stub(crate::Matcher::fuzzy_match, crate::verif::compose_h::s_fuzzy_match)]
             #[kani::stub(crate::Matcher::fuzzy_indices, crate::verif::compose_h::s_fuzzy_indices)]
             #[kani::stub(crate::Matcher::substring_match, crate::verif::compose_h::s_substring_match)]
@@ -351,22 +353,22 @@ macro_rules! harnesses_compose {
 #[cfg(not(kani))]
 pub fn lookup(name: &str) -> Option<fn()> {
     match name {
-        "compose_a0" => Some(pattern_compose::<0> as fn()),
-        "compose_a1" => Some(pattern_compose::<1> as fn()),
-        "compose_a2" => Some(pattern_compose::<2> as fn()),
-        "compose_a3" => Some(pattern_compose::<3> as fn()),
-        "match_list_a1" => Some(match_list::<1> as fn()),
-        "match_list_a2" => Some(match_list::<2> as fn()),
+        "compose_a0" => Some((|| pattern_compose::<0>(0)) as fn()),
+        "compose_a1" => Some((|| pattern_compose::<1>(1)) as fn()),
+        "compose_a2" => Some((|| pattern_compose::<2>(1)) as fn()),
+        "compose_a3" => Some((|| pattern_compose::<3>(5)) as fn()),
+        "match_list_a1" => Some((|| match_list::<1>(0)) as fn()),
+        "match_list_a2" => Some((|| match_list::<2>(2)) as fn()),
         _ => None,
     }
 }
 
 #[cfg(kani)]
 harnesses_compose! {
-    compose_a0 [8] => pattern_compose::<0>();
-    compose_a1 [8] => pattern_compose::<1>();
-    compose_a2 [8] => pattern_compose::<2>();
-    compose_a3 [8] => pattern_compose::<3>();
-    match_list_a1 [10] => match_list::<1>();
-    match_list_a2 [10] => match_list::<2>();
+    compose_a0 [8] => pattern_compose::<0>(0);
+    compose_a1 [8] => pattern_compose::<1>(1);
+    compose_a2 [8] => pattern_compose::<2>(1);
+    compose_a3 [8] => pattern_compose::<3>(5);
+    match_list_a1 [10] => match_list::<1>(0);
+    match_list_a2 [10] => match_list::<2>(2);
 }
